@@ -65,6 +65,9 @@ type gen struct {
 	// names lists the sub-kinds; run executes one case
 	names []string
 	run   func(c *ctx, name string, r *hlib.Rng)
+	// times is the number of cases per random round (0 = 1); the monitor-only generators emit no Coq
+	// case and cost milliseconds, so they can afford more
+	times int
 }
 
 func (c *ctx) runOne(g *gen, name string, seed uint64) {
@@ -116,8 +119,10 @@ func main() {
 	// random part: N rounds; in each round one case of every generator, sub-kind chosen at random
 	for i := 0; i < f.N; i++ {
 		for _, g := range gens {
-			name := g.names[rng.Intn(len(g.names))]
-			c.runOne(g, name, rng.Next())
+			for k := 0; k < 1 || k < g.times; k++ {
+				name := g.names[rng.Intn(len(g.names))]
+				c.runOne(g, name, rng.Next())
+			}
 		}
 	}
 	cw.Close()
